@@ -99,3 +99,34 @@ def unwinding(R, ctx, pre):
     """loop bound obligations: the loop condition after the last unrolled iteration must be unsat"""
     if ctx.unwind:
         R.prove("unwinding-assertions", list(pre) + ctx.assumptions, z3.Not(z3.Or(ctx.unwind)), internal=True)
+
+
+def reset_replayer(env_reset, ctx, key_sv, pred, n=512, what="reset"):
+    """two-stage replay for obligations over random draws (DESIGN 1.5):
+    (1) search real PRNG keys 0..n-1 for one whose REAL execution violates pred(outputs) -> (holds, detail);
+    (2) otherwise re-execute the traced program with the jax.random stubs returning the MODEL's draws (which satisfy the
+        documented contracts) and every other equation evaluated by the real primitive: replay_mode = stub-draw."""
+    f = jax.jit(env_reset)
+
+    def replay(model):
+        for i in range(n):
+            out = f(jax.random.PRNGKey(i))
+            ok, detail = pred(jax.tree_util.tree_map(np.asarray, out))
+            if not ok:
+                return True, {"replay_mode": "real-key", "key": f"PRNGKey({i})", "observed": detail}
+        ctx2 = Ctx(max_unroll=ctx.max_unroll, havoc_loops=ctx.havoc_loops)
+        ctx2.memo = ctx.memo
+        ctx2.replay_model = model
+        out2, _ = J.sym_call(env_reset, (key_sv,), ctx2)
+
+        def conc(sv):
+            if sv.conc:
+                return np.asarray(sv.a)
+            return np.asarray(J._concretize(model, sv).a)     # leaves that are keys stay symbolic tokens: valued by the model
+        out_np = S.tmap(conc, out2)
+        ok, detail = pred(out_np)
+        if not ok:
+            return True, {"replay_mode": "stub-draw", "note": "no real key in 0..%d reproduces it; reproduced with the jax.random samplers returning "
+                          "the model's draws (all within their documented contracts), all other equations on real primitives" % (n - 1), "observed": detail}
+        return False, {"note": "neither a real key nor the stub-draw execution reproduces the model"}
+    return replay
